@@ -172,8 +172,18 @@ def shard(shard_i, nshards, payload):
     s = lsp.Session(tmp)
     # the document's URI as editors send it: percent-encoded where the path has blanks, non-ASCII letters, '#', braces
     uri = ["file:///w/doc.st", "file:///w/my%20project/main.st", "file:///w/pr%C3%BCfstand/d%C3%B6k.st",
-           "file:///w/a%23b%7Bc%7D.st"][shard_i % 4]
-    res.seen("uris", uri)
+           "file:///w/a%23b%7Bc%7D.st", None][shard_i % 5]
+    disk_path = None
+    if uri is None:
+        # a document that also exists as a file, reached through a symbolic link; the file is saved, changed and removed
+        # behind the server's back: what the editor sent is the document
+        import os
+        os.makedirs(os.path.join(tmp, "realdir"), exist_ok=True)
+        if not os.path.lexists(os.path.join(tmp, "linkdir")):
+            os.symlink(os.path.join(tmp, "realdir"), os.path.join(tmp, "linkdir"))
+        uri = "file://" + os.path.join(tmp, "linkdir") + "//doc.st"
+        disk_path = os.path.join(tmp, "realdir", "doc.st")
+    res.seen("uris", uri if disk_path is None else "file://<tmp>/linkdir//doc.st (symlink, file on disk comes and goes)")
     version = 0
     try:
         for i in range(shard_i, payload["n"], nshards):
@@ -213,9 +223,20 @@ def shard(shard_i, nshards, payload):
                 k = rng.randrange(len(text) + 1)
                 while k > 0 and text[k - 1] == "$":
                     k -= 1
-                text = text[:k] + rng.choice(["?", "@", "!", "~", "\\", "`"]) + text[k:]
+                bad_ch = rng.choice(["?", "@", "!", "~", "\\", "`"])
+                if rng.random() < 0.25:
+                    # ... or an invisible one as the very first character of the document
+                    k, bad_ch = 0, rng.choice(["\ufeff", "\u200b", "\u00a0", "\ufeff\ufeff"])
+                text = text[:k] + bad_ch + text[k:]
                 kind = "invalid-char"
             # an edit history before the request: stale texts must not show through
+            if disk_path is not None:
+                import os
+                what = rng.randrange(3)
+                if what == 0 and os.path.exists(disk_path):
+                    os.unlink(disk_path)
+                elif what == 1:
+                    open(disk_path, "w").write(make_doc(rng, bad01)[0])
             n_edits = rng.randint(0, 3)
             reopened = (i // nshards) % 3 == 1
             if reopened:
